@@ -6,7 +6,7 @@ from hypothesis import strategies as st
 
 from vf.harness import HarnessError, Task, drive
 from vf.model import curves as mcurves
-from vf.model import ec, params
+from vf.model import ec, nt, params
 from vf.model.fields import Ext, Fp
 from vf.props import _fields_common as fc
 from vf.props._curve_common import MODULES, jpt, mod, unjpt
@@ -30,7 +30,7 @@ ASSUMPTIONS = ["affine model vf/model/ec.py over model fields; curve constants d
 ENGINE = "exhaustive enumeration on small curves + hypothesis on the real curves"
 TECHNIQUE = ("exhaustive enumeration over small curves on ad-hoc field classes + property-based testing (Hypothesis) on the real curves, differential against an independent affine model")
 REQUIRED_LABELS = {t: ["A:pairs", "A:triples", "A:scalars", "A:opt:scaled", "B:collision:same",
-                       "B:collision:inverse", "B:non_subgroup", "B:scalar>=2^200", "B:G12:sum", "C:consts",
+                       "B:collision:inverse", "B:same_y_other_x", "B:opposite_y_other_x", "B:non_subgroup", "B:scalar>=2^200", "B:G12:sum", "C:consts",
                        "C:twist"] for t in ("quick", "thorough")}
 CURVE_FILE = {"bn128": "py_ecc.bn128.bn128_curve", "bls12_381": "py_ecc.bls12_381.bls12_381_curve",
               "optimized_bn128": "py_ecc.optimized_bn128.optimized_curve",
@@ -281,7 +281,13 @@ def o_real(ctx, case):
     ctx.begin("real", case)
     P = model_point(C, g, case["P"])
     rel = case["rel"]
-    Q = P if rel == "same" else C.neg(g, P) if rel == "inverse" else model_point(C, g, case["Q"])
+    if rel.startswith("endo") and P is not None:
+        # the image of P under the order-3 automorphism (x, y) -> (beta x, y) of a j = 0 curve, or its negative:
+        # a different point with the same (opposite) y coordinate
+        beta = nt.cube_roots_of_unity(C.p)[int(rel[5])]
+        Q = (F.smul(P[0], beta), P[1] if rel[4] == "+" else F.neg(P[1]))
+    else:
+        Q = P if rel == "same" else C.neg(g, P) if rel == "inverse" else model_point(C, g, case["Q"])
     R = model_point(C, g, case["R"])
 
     def sc(s):
@@ -346,6 +352,8 @@ def o_real(ctx, case):
         ctx.label("B:collision:same"); nt_ = True
     elif rel == "inverse":
         ctx.label("B:collision:inverse"); nt_ = True
+    elif rel.startswith("endo") and P is not None:
+        ctx.label("B:same_y_other_x" if rel[4] == "+" else "B:opposite_y_other_x"); nt_ = True
     if case["P"].get("tors") and (g == "G2" or C.h1 > 1):
         ctx.label("B:non_subgroup"); nt_ = True
     if M.opt and (case["s1"] != 1 or case["s2"] != 1):
@@ -452,6 +460,7 @@ def family_scalars(C):
         for k in (1, 2, 3, 31415926535):
             v = (k * base) % r
             out.update((v, r - v, v + 1, r + v, r + 2, 2 * r + v))
+    out.update(v for v in nt.endo_scalars(r) if v >= 0)
     out.update(((r - 1) // 2, (r + 1) // 2, r + 2, r + 3, 2 * r + 1, 3 * r + 2, 2 ** 255, 2 ** 254, 2 ** 256 - 1))
     return sorted(v for v in out if v >= 0)
 
@@ -471,7 +480,8 @@ def t_real(ctx, module, g, shard, n, big, assoc):
     sc = st.one_of(st.just(1), uniform_int(2, p - 1)) if M.opt else st.just(1)
     strat = st.fixed_dictionaries({
         "P": s_pspec(C, g), "Q": s_pspec(C, g), "R": s_pspec(C, g),
-        "rel": st.sampled_from(["free", "free", "free", "same", "inverse"]),
+        "rel": st.sampled_from(["free", "free", "free", "free", "same", "same", "inverse", "inverse",
+                                "endo+0", "endo+1", "endo-0", "endo-1"]),
         "n": st.one_of(st.none(), s_scalar(C, big), s_scalar(C, big)),
         "n2": st.one_of(st.none(), s_scalar(C, False)),
         "s1": sc, "s2": sc, "assoc": st.just(assoc)}).map(lambda c: dict(c, module=module, g=g))
@@ -487,6 +497,9 @@ def t_real(ctx, module, g, shard, n, big, assoc):
                            rel=["free", "same", "inverse"][i % 3], n=n_))
         ex.append(dict(base, P={"k": 1, "tors": 0, "kind": kind, "inf": True},
                        Q={"k": 1, "tors": 0, "kind": kind, "inf": True}, rel="free", n=5))
+        for i, rel_ in enumerate(("endo+0", "endo+1", "endo-0", "endo-1")):
+            ex.append(dict(base, P={"k": 13 + i, "tors": 0, "kind": kind, "inf": False},
+                           Q={"k": 9, "tors": 0, "kind": kind, "inf": False}, rel=rel_, n=None))
         if g == "G12":
             ex.append(dict(base, P={"k": 11, "tors": 0, "kind": "sum", "inf": False},
                            Q={"k": 5, "tors": 0, "kind": "cast", "inf": False}, rel="free", n=2 ** 20 + 1))
